@@ -32,7 +32,7 @@ fn extreme(bits: u32) -> BoxedStrategy<u64> {
 }
 
 pub fn words_strategy(bits: u32) -> BoxedStrategy<Vec<u64>> {
-    proptest::collection::vec(extreme(bits), NWORDS).boxed()
+    lattice::with_related_operands(proptest::collection::vec(extreme(bits), NWORDS).boxed(), bits)
 }
 
 fn special(bits: u32, w: u64) -> bool {
